@@ -130,5 +130,7 @@ SemanticsMatch(t, o) ==
   /\ (o.ver = 4 => o.kuPrf = PrfAt(t, 4))
   /\ CipherNameOk(t, o.sessCipherName)
   /\ (~Aead(t) => o.macName = MacName(t))
+  \* the record MAC is the one the version defines for the hash the name gives (SSLv3 MAC / HMAC), recomputed from the key
+  /\ (~Aead(t) => o.macProbe = "ok")
   /\ \A i \in 1..Len(o.recs) : RecordLenOk(t, o.ver, o.etm, o.recs[i][1], o.recs[i][2])
 =============================================================================
